@@ -490,7 +490,8 @@ Qed.
 
 Lemma tidy_edges_pts idx h h' : tidy_edges idx h = Ok h' -> pts h' = pts h.
 Proof.
-  unfold tidy_edges. intros E. inv1 E. destruct l; [inversion E; reflexivity|]. apply tidy_loop_pts in E. exact E.
+  unfold tidy_edges. intros E. destruct (edge_list h _) as [l|]; cbn [bind] in E; [|discriminate].
+  destruct l; [inversion E; reflexivity|]. apply tidy_loop_pts in E. exact E.
 Qed.
 
 Lemma gp_strip_pts fuel : forall h op op2 h' x, gp_strip fuel h op op2 = Ok (h', x) -> pts h' = pts h.
@@ -510,31 +511,43 @@ Proof.
   induction fuel as [|f IH]; intros h op op2 acc l Hacc E; cbn [gp_collect] in E; [discriminate|].
   destruct (op2 =? op)%nat.
   - inversion E; subst. intros x Hx. apply Hacc. apply in_rev. exact Hx.
-  - inv1 E. eapply IH; [|exact E]. intros x [<-|Hx]; [eapply nd_in_pts; eassumption|apply Hacc, Hx].
+  - destruct (nd h op2) as [n|] eqn:En; cbn [bind] in E; [|discriminate].
+    eapply IH; [|exact E]. intros x [<-|Hx]; [eapply nd_in_pts; exact En|apply Hacc, Hx].
 Qed.
 
 Lemma get_path_in h o h' l : get_path h o = Ok (h', l) -> pts h' = pts h /\ forall x, In x l -> In x (pts h).
 Proof.
   unfold get_path. intros E. destruct o as [op|]; [|inversion E; subst; split; [reflexivity|intros ? []]].
-  inv1 E. destruct (n_next n =? n_prev n)%nat; [inversion E; subst; split; [reflexivity|intros ? []]|].
-  inv1 E. destruct p as [h1 x]. apply gp_strip_pts in E1.
+  destruct (nd h op) as [n|] eqn:En; cbn [bind] in E; [|discriminate].
+  destruct (n_next n =? n_prev n)%nat; [inversion E; subst; split; [reflexivity|intros ? []]|].
+  destruct (gp_strip (ring_fuel h) h op (n_next n)) as [[h1 x]|] eqn:E1; cbn [bind] in E; [|discriminate].
+  apply gp_strip_pts in E1.
   destruct x as [op'|]; [|inversion E; subst; split; [exact E1|intros ? []]].
-  inv1 E. inv1 E. inversion E; subst. split; [exact E1|].
-  rewrite <- E1. eapply gp_collect_in; [|eassumption].
-  intros x [<-|[]]. eapply nd_in_pts; eassumption.
+  destruct (nd h1 op') as [n'|] eqn:En'; cbn [bind] in E; [|discriminate].
+  destruct (gp_collect (ring_fuel h) h1 op' (n_next n') [n_pt n']) as [l0|] eqn:Ec; cbn [bind] in E; [|discriminate].
+  inversion E; subst. split; [exact E1|].
+  rewrite <- E1. eapply gp_collect_in; [|exact Ec].
+  intros x [<-|[]]. eapply nd_in_pts; exact En'.
 Qed.
 
 Lemma get_paths_in rs : forall h ps, get_paths rs h = Ok ps -> forall p x, In p ps -> In x p -> In x (pts h).
 Proof.
   induction rs as [|o t IH]; intros h ps E p x Hp Hx; cbn [get_paths] in E; [inversion E; subst; destruct Hp|].
-  inv1 E. destruct p0 as [h1 l]. inv1 E. inversion E; subst. apply get_path_in in E0. destruct E0 as [A B].
+  destruct (get_path h o) as [[h1 l]|] eqn:E0; cbn [bind] in E; [|discriminate].
+  destruct (get_paths t h1) as [ps'|] eqn:E1; cbn [bind] in E; [|discriminate].
+  inversion E; subst. apply get_path_in in E0. destruct E0 as [A B].
   rewrite <- A. destruct l as [|y l']; [eapply IH; eassumption|].
   destruct Hp as [<-|Hp]; [rewrite A; apply B; exact Hx|eapply IH; eassumption].
 Qed.
 
 Lemma finish_in r h ps : finish r h = Ok ps -> forall p x, In p ps -> In x p -> In x (pts h).
 Proof.
-  unfold finish. intros E p x Hp Hx. repeat inv1 E.
+  unfold finish. intros E p x Hp Hx.
+  destruct (check_edges r h) as [h0|] eqn:E0; cbn [bind] in E; [|discriminate].
+  destruct (tidy_edges 0 h0) as [h1|] eqn:E1; cbn [bind] in E; [|discriminate].
+  destruct (tidy_edges 1 h1) as [h2|] eqn:E2; cbn [bind] in E; [|discriminate].
+  destruct (tidy_edges 2 h2) as [h3|] eqn:E3; cbn [bind] in E; [|discriminate].
+  destruct (tidy_edges 3 h3) as [h4|] eqn:E4; cbn [bind] in E; [|discriminate].
   apply check_edges_pts in E0. apply tidy_edges_pts in E1, E2, E3, E4.
   pose proof (get_paths_in _ _ _ E p x Hp Hx) as H. congruence.
 Qed.
@@ -577,4 +590,151 @@ Proof.
     pose proof (get_bounds_fold path (mkRect i64_max i64_max i64_lowest i64_lowest)) as HB. cbv zeta in HB.
     destruct HB as [_ HB]. specialize (HB v (nth_error_In _ _ Hk)). fold (get_bounds path) in HB.
     unfold rect_contains_rect in Ec. unfold in_rect in *. bool_hyps. lia.
+Qed.
+
+(* ====================================================================== the instance with the translated leaf functions *)
+Lemma t_get_location_false r v : rect_ok r -> fst (t_get_location r v) = false -> in_rect r v.
+Proof.
+  intros Hok. unfold rect_ok in Hok. unfold t_get_location. destruct (GetLocation (R64 r) v Location_Inside) as [b l] eqn:E. cbn [fst]. intros ->.
+  destruct (RectClipLeaf.location_partition _ _ _ _ _ E) as (_ & S & _). specialize (S eq_refl).
+  unfold RectClipLeaf.on_side, R64 in S. cbn [CSem.r_left CSem.r_top CSem.r_right CSem.r_bottom] in S. unfold in_rect.
+  destruct S as [S|[S|[S|S]]]; lia.
+Qed.
+
+Lemma t_get_intersection_inv r p p2 loc ip b l' v :
+  t_get_intersection r p p2 loc ip = (b, l', v) -> exists l, GetIntersection (RPath r) p p2 (loc_idx loc) ip = (b, l, v) /\ l' = loc_of_idx l.
+Proof.
+  unfold t_get_intersection. destruct (GetIntersection (RPath r) p p2 (loc_idx loc) ip) as [[b0 l0] q0].
+  intros H. inversion H; subst. exists l0. split; reflexivity.
+Qed.
+
+Theorem rect_clip_vertices r path out piece v s :
+  rect_i64 r -> rect_clip_t r path = Ok out -> In piece out -> In (v, s) piece ->
+  match s with
+  | SV i => nth_error path i = Some v /\ in_rect r v
+  | SC k => nth_error (rect_as_path r) k = Some v
+  | SI i => exists a b, cseg_at path i a b /\ exists loc ip0 loc',
+              GetIntersection (RPath r) b a loc ip0 = (true, loc', v) \/ GetIntersection (RPath r) a b loc ip0 = (true, loc', v)
+  | SX i => exists a b, cseg_at path i a b /\ exists loc ip0 loc', GetIntersection (RPath r) a b loc ip0 = (false, loc', v)
+  end.
+Proof.
+  intros Hr E Hp Hv. unfold rect_clip_t in E. destruct (rect_is_empty r) eqn:He; [inversion E; subst; destruct Hp|].
+  apply rect_nonempty_ok in He. assert (Hok : rect_ok r) by (unfold rect_ok; lia).
+  pose proof (clip_provenance _ _ _ _ _ _ Hr E piece (v, s) Hp Hv) as P. unfold cprov in P. cbn [fst snd] in P.
+  destruct s as [i|i|i|k].
+  - destruct P as [A [B|B]]; (split; [exact A|]); [exact B|apply (t_get_location_false _ _ Hok), B].
+  - destruct P as (a & b & Hs & loc & ip0 & l' & [G|G]); apply t_get_intersection_inv in G; destruct G as (l & G & _);
+      exists a, b; (split; [exact Hs|]); exists (loc_idx loc), ip0, l; [left|right]; exact G.
+  - destruct P as (a & b & Hs & loc & ip0 & l' & G). apply t_get_intersection_inv in G. destruct G as (l & G & _).
+    exists a, b. split; [exact Hs|]. exists (loc_idx loc), ip0, l. exact G.
+  - exact P.
+Qed.
+
+(* without a point tagged SX every output vertex is an input vertex in the closed rectangle, a corner, or an intersection
+   point GetIntersection vouched for *)
+Corollary rect_clip_vertices_no_stale r path out :
+  rect_i64 r -> rect_clip_t r path = Ok out ->
+  (forall piece v i, In piece out -> ~ In (v, SX i) piece) ->
+  forall piece v, In piece (untag out) -> In v piece ->
+    (In v path /\ in_rect r v) \/ In v (rect_as_path r)
+    \/ exists a b loc ip0 loc', In a path /\ In b path /\ GetIntersection (RPath r) a b loc ip0 = (true, loc', v).
+Proof.
+  intros Hr E Hns piece v Hp Hv. unfold untag in Hp. apply in_map_iff in Hp. destruct Hp as (tp & <- & Htp).
+  apply in_map_iff in Hv. destruct Hv as ([v' s] & Hv' & Hin). cbn [fst] in Hv'. subst v'.
+  pose proof (rect_clip_vertices r path out tp v s Hr E Htp Hin) as P. destruct s as [i|i|i|k].
+  - left. destruct P as [A B]. split; [eapply nth_error_In; exact A|exact B].
+  - right; right. destruct P as (a & b & [Ha Hb] & loc & ip0 & l' & [G|G]).
+    + exists b, a, loc, ip0, l'. split; [eapply nth_error_In; exact Hb|]. split; [eapply nth_error_In; exact Ha|exact G].
+    + exists a, b, loc, ip0, l'. split; [eapply nth_error_In; exact Ha|]. split; [eapply nth_error_In; exact Hb|exact G].
+  - exfalso. eapply Hns; eassumption.
+  - right; left. eapply nth_error_In; exact P.
+Qed.
+
+(* the SX case is real: with the translated leaf functions the model -- and RectClip itself, which the check ties to it by
+   exact equality and replays -- emits the default-constructed Point64() = (0,0) for this triangle (a simple polygon that misses
+   the 1 x 1 rectangle; |coordinates| < 2^30) *)
+Definition stale_rect : rect := mkRect 32769433 279593455 32769434 279593456.
+Definition stale_path : list pt := [(109421516, 656086942); (-25760342, -7888347); (32769354, 279593454)].
+
+Theorem stale_refuted :
+  exists out piece i,
+    rect_is_empty stale_rect = false /\ rect_i64 stale_rect /\ rect_clip_t stale_rect stale_path = Ok out /\ In piece out
+    /\ In ((0, 0), SX i) piece /\ ~ within stale_rect 1 (0, 0)
+    /\ ~ In (0, 0) stale_path /\ ~ In (0, 0) (rect_as_path stale_rect).
+Proof.
+  eexists. eexists. exists 1%nat.
+  split; [reflexivity|]. split; [unfold rect_i64, i64_lowest, i64_max, stale_rect; cbn; lia|].
+  split; [vm_compute; reflexivity|]. split; [left; reflexivity|].
+  split; [first [left; reflexivity|right; left; reflexivity|right; right; left; reflexivity]|].
+  split; [unfold within, stale_rect; cbn; lia|].
+  split; intros H; cbn in H; repeat (destruct H as [H|H]; [discriminate H|]); exact H.
+Qed.
+
+(* ====================================================================== the corner loops *)
+Lemma corner_loop_total r a b cw rs : a <> Inside -> b <> Inside -> exists rs', corner_loop r loop_fuel a b cw rs = Ok rs'.
+Proof.
+  intros Ha Hb. destruct a; try contradiction; destruct b; try contradiction; destruct cw; eexists; reflexivity.
+Qed.
+
+Lemma startloc_loop_total a b cw sl : b <> Inside -> exists sl', startloc_loop loop_fuel a b cw sl = Ok sl'.
+Proof.
+  intros Hb. destruct a; destruct b; try contradiction; destruct cw; eexists; reflexivity.
+Qed.
+
+(* a successful GetIntersection names a side: the loop that runs to crossing_loc ends *)
+Lemma t_get_intersection_side r p p2 loc ip l' q : t_get_intersection r p p2 loc ip = (true, l', q) -> l' <> Inside.
+Proof.
+  intros H. apply t_get_intersection_inv in H. destruct H as (l & G & Hl). subst l'.
+  apply RectClipLeaf.gi_true_side in G. destruct G as [G _]. apply RectClipLeaf.in_sides in G.
+  destruct G as [-> | [-> | [-> | ->]]]; discriminate.
+Qed.
+
+(* a corner loop whose target is Inside never ends: what the model reports as running out of fuel *)
+Lemma adj_not_inside a cw : adj a cw <> Inside.
+Proof. destruct a, cw; vm_compute; discriminate. Qed.
+
+Lemma corner_loop_inside_diverges r fuel : forall a cw rs, exists e, corner_loop r fuel a Inside cw rs = Err e.
+Proof.
+  induction fuel as [|f IH]; intros a cw rs; [exists ErrFuel; reflexivity|].
+  cbn [corner_loop]. destruct (add_corner r a cw rs) as [[a' rs']|e] eqn:E; cbn [bind]; [|exists e; reflexivity].
+  assert (Ha' : a' <> Inside).
+  { unfold add_corner in E. destruct cw.
+    - destruct (corner r a); cbn [bind] in E; [|discriminate]. inversion E; subst. apply adj_not_inside.
+    - destruct (corner r (adj a false)); cbn [bind] in E; [|discriminate]. inversion E; subst. apply adj_not_inside. }
+  destruct (loc_eqb a' Inside) eqn:El; [destruct a'; try discriminate El; contradiction|apply IH].
+Qed.
+
+(* ====================================================================== everything about one call, together *)
+Lemma corner_in_rect r k v : rect_ok r -> nth_error (rect_as_path r) k = Some v -> in_rect r v.
+Proof.
+  unfold rect_ok, rect_as_path, in_rect. intros Hok H.
+  destruct k as [|[|[|[|k]]]]; cbn in H; try (inversion H; subst; unfold rp0, rp1, rp2, rp3, px, py; cbn [fst snd]; lia).
+  destruct k; discriminate.
+Qed.
+
+Theorem rect_clip_partial r path out :
+  rect_is_empty r = false -> rect_i64 r -> (forall v, In v path -> pt_i64 v) ->
+  rect_clip_t r path = Ok out ->
+  (forall piece v s, In piece out -> In (v, s) piece ->
+     match s with
+     | SV i => nth_error path i = Some v /\ in_rect r v
+     | SC k => nth_error (rect_as_path r) k = Some v
+     | SI i => exists a b, cseg_at path i a b /\ exists loc ip0 loc',
+                 GetIntersection (RPath r) b a loc ip0 = (true, loc', v) \/ GetIntersection (RPath r) a b loc ip0 = (true, loc', v)
+     | SX i => exists a b, cseg_at path i a b /\ exists loc ip0 loc', GetIntersection (RPath r) a b loc ip0 = (false, loc', v)
+     end)
+  /\ (forall piece v s, In piece out -> In (v, s) piece -> match s with SV _ | SC _ => in_rect r v | _ => True end)
+  /\ ((3 <= length path)%nat -> (forall v, In v path -> in_rect r v) -> untag out = [path])
+  /\ (((forall v, In v path -> px v < r_left r) \/ (forall v, In v path -> r_right r < px v)
+       \/ (forall v, In v path -> py v < r_top r) \/ (forall v, In v path -> r_bottom r < py v)) -> out = []).
+Proof.
+  intros He Hr Hi E.
+  assert (Hok : rect_ok r) by (apply rect_nonempty_ok in He; unfold rect_ok; lia).
+  assert (P : forall piece v s, In piece out -> In (v, s) piece -> _) by (intros piece v s; apply (rect_clip_vertices r path out piece v s Hr E)).
+  split; [exact P|]. split; [|split].
+  - intros piece v s Hp Hv. specialize (P piece v s Hp Hv). destruct s; try exact I; [apply P|eapply corner_in_rect; eassumption].
+  - intros Hn Hin. destruct (rect_clip_shortcuts r path He Hr Hi) as [S _]. destruct (S Hn Hin) as [S1 _].
+    rewrite S1 in E. inversion E; subst. cbn [untag map]. rewrite untag_tag_sv. reflexivity.
+  - intros Hb. destruct (rect_clip_shortcuts r path He Hr Hi) as [_ S]. destruct (S Hb) as [S1 _].
+    rewrite S1 in E. inversion E; reflexivity.
 Qed.
